@@ -67,21 +67,146 @@ func matchAtom(p, a *Atom) bool {
 	return ok
 }
 
+// weaker: the atoms implied by an assumed atom (including itself).
+func weaker(p *Atom) []*Atom {
+	out := []*Atom{p}
+	switch {
+	case p.Pred == "lt":
+		out = append(out, &Atom{Pred: "le", Args: p.Args}, &Atom{Pred: "eq", Args: p.Args, Neg: true})
+	case p.Pred == "eq" && !p.Neg:
+		out = append(out, &Atom{Pred: "le", Args: p.Args}, &Atom{Pred: "le", Args: []*Term{p.Args[1], p.Args[0]}})
+	}
+	return out
+}
+
+func (f *Flow) assumed(a *Atom) bool {
+	for _, p := range f.Assume {
+		for _, w := range weaker(p) {
+			if matchAtom(w, a) {
+				return true
+			}
+		}
+	}
+	return false
+}
+
 func (f *Flow) contradictsAssumption(a *Atom) bool {
 	if len(f.Assume) == 0 {
 		return false
 	}
-	n := a.Negate()
-	for _, p := range f.Assume {
-		if matchAtom(p, n) {
-			return true
+	return f.assumed(a.Negate())
+}
+
+type hasFn func(a *Atom) bool
+
+func (f *Flow) withAssumptions(facts Facts) hasFn {
+	return func(a *Atom) bool {
+		return facts.Has(a) != nil || f.assumed(a)
+	}
+}
+
+// evalBool: three-valued evaluation of a boolean term under a fact set: 1 true, -1 false, 0 unknown.
+func evalBool(t *Term, facts hasFn) int {
+	switch t.Op {
+	case "const":
+		if t.Name == "true" {
+			return 1
 		}
-		// lt/le forms: assumed lt(x,y) contradicts le(y,x)
-		if p.Pred == "lt" && a.Pred == "le" && matchAtom(&Atom{Pred: "le", Args: []*Term{p.Args[1], p.Args[0]}}, a) {
+		if t.Name == "false" {
+			return -1
+		}
+		return 0
+	case "un":
+		if t.Name == "!" {
+			return -evalBool(t.Args[0], facts)
+		}
+	case "and":
+		res := 1
+		for _, x := range t.Args {
+			switch evalBool(x, facts) {
+			case -1:
+				return -1
+			case 0:
+				res = 0
+			}
+		}
+		return res
+	case "or":
+		res := -1
+		for _, x := range t.Args {
+			switch evalBool(x, facts) {
+			case 1:
+				return 1
+			case 0:
+				res = 0
+			}
+		}
+		return res
+	case "bin":
+		if (t.Name == "==" || t.Name == "!=") && isBoolTerm(t.Args[0]) && isBoolTerm(t.Args[1]) {
+			x, y := evalBool(t.Args[0], facts), evalBool(t.Args[1], facts)
+			if x != 0 && y != 0 {
+				if (x == y) == (t.Name == "==") {
+					return 1
+				}
+				return -1
+			}
+			return 0
+		}
+	}
+	a := atomOf(t, "")
+	if a == nil {
+		return 0
+	}
+	if facts(a) {
+		return 1
+	}
+	if facts(a.Negate()) {
+		return -1
+	}
+	return 0
+}
+
+func isBoolTerm(t *Term) bool {
+	switch t.Op {
+	case "and", "or":
+		return true
+	case "un":
+		return t.Name == "!"
+	case "const":
+		return t.Name == "true" || t.Name == "false"
+	case "bin":
+		switch t.Name {
+		case "==", "!=", "<", "<=":
 			return true
 		}
 	}
 	return false
+}
+
+// addConjuncts: truth(and(xs)) gives every x; !truth(or(xs)) gives every !x.
+func addConjuncts(facts Facts, a *Atom) {
+	if a.Pred != "truth" || len(a.Args) != 1 {
+		return
+	}
+	t := a.Args[0]
+	if t.Op == "and" && !a.Neg {
+		for _, x := range t.Args {
+			if c := atomOf(x, a.Site); c != nil {
+				facts.Add(c)
+				addConjuncts(facts, c)
+			}
+		}
+	}
+	if t.Op == "or" && a.Neg {
+		for _, x := range t.Args {
+			if c := atomOf(x, a.Site); c != nil {
+				n := c.Negate()
+				facts.Add(n)
+				addConjuncts(facts, n)
+			}
+		}
+	}
 }
 
 // condAtom: the atom that holds on the true edge of an If.
@@ -102,7 +227,13 @@ func (f *Flow) edgeFacts(from *ssa.BasicBlock, succIdx int, out Facts) Facts {
 			if res.Has(a.Negate()) != nil || (a.Pred == "truth" && a.Args[0].Key() == tTrue.Key() && a.Neg) || f.contradictsAssumption(a) {
 				return nil
 			}
+			// boolean evaluation of materialised conditions
+			want := succIdx == 0
+			if v := evalBool(f.C.Term(ifi.Cond), f.withAssumptions(res)); v != 0 && (v == 1) != want {
+				return nil
+			}
 			res.Add(a)
+			addConjuncts(res, a)
 		}
 	}
 	// loop normal exit: add the generalised facts
